@@ -84,14 +84,34 @@ def build_obligation(inst):
         car = OP_CARRIER[opn]
         unit = ops.UNITS[O(opn)]
 
+        if shape is None and car == "log":
+            # scalar default of logaddexp with a -inf unit: the python-level code goes through float NaN for
+            # (-inf, -inf) and still returns -inf; NaN is not representable symbolically, so the symbolic scalar ranges
+            # over finite log values and the (-inf, -inf) corner is a concrete edge check (kind "edge")
+            car = "logfinite"
+
         def ob(mk):
             x = _mk(mk, "x", shape, car)
             got = O(opn)(unit, x) if side == "l" else O(opn)(x, unit)
             return [(got, x)]
         return ob
+    if kind == "edge":
+        _, opn, a, b, want = inst
+
+        def ob(mk):
+            import z3
+            import warnings
+            with warnings.catch_warnings():
+                warnings.simplefilter("ignore")
+                got = O(opn)(a, b)
+            ok = (got == want) or (got != got and want != want)
+            return [(z3.BoolVal(bool(ok)) if mk.symbolic else bool(ok), None)]
+        return ob
     if kind == "distrib":
         _, addn, muln, shapes = inst
         car = PAIR_CARRIER[(addn, muln)]
+        if car == "log" and all(sh is None for sh in shapes):
+            car = "logfinite"      # scalar defaults go through float NaN at (-inf,-inf): covered by the "edge" instances
 
         def ob(mk):
             x, y, z = [_mk(mk, n, s, car) for n, s in zip("xyz", shapes)]
@@ -398,6 +418,11 @@ def _fpval(v):
     return struct.unpack("<d", struct.pack("<Q", bv))[0]
 
 
+def np_arr(v):
+    import numpy as np
+    return np.array(v)
+
+
 def instances(tier):
     import funsor.ops as ops
     shapes = SHAPES_Q if tier == "quick" else SHAPES_T
@@ -457,6 +482,10 @@ def instances(tier):
     for be in ("funsor.einsum.numpy_log", "funsor.einsum.numpy_map"):
         for eq, shs in eqs:
             out.append(("einsum", be, eq, shs))
+    inf = math.inf
+    for a, b, want in [(-inf, -inf, -inf), (-inf, 0.0, 0.0), (0.0, -inf, 0.0), (-inf, 1.5, 1.5), (-745.0, -inf, -745.0)]:
+        out.append(("edge", "logaddexp", a, b, want))
+        out.append(("edge", "logaddexp", np_arr(a), np_arr(b), want))
     out += [("fp", "_safesub", "safesub"), ("fp", "_reciprocal", "reciprocal"), ("fp", "_safediv", "safediv")]
     return out, skipped
 
